@@ -11,6 +11,7 @@ import ast
 import io
 import json
 import os
+import textwrap
 import tokenize
 import warnings
 
@@ -54,6 +55,8 @@ WITNESSES = [
     ("lastline2", '@a\n@b(1,\n  2)\n@c\nclass K:\n    x = """\n# t\n#"""\ny = 1\n'),
     ("lastline3", "x = 0\n@dec\nasync def f(p):\n    '''doc\n# end'''\n# real comment\n"),
     ("lastline4", '@dec\ndef f():\n  x = 1\n  @dec\n  @e\n  def g():\n    return f"""a{x}\n# end"""\n'),
+    ("crlf1", "y = 1 \\\r\n\r\nz = 2\r\n"),
+    ("crlf2", "x = 1\r\n# c\r\ny = \'\'\'a\r\n# b\'\'\'\r\nimport os; z = 2  # t\r\n"),
     ("plain", "# 1\nprint(2)\n# 3\n# 4\nprint(5)\nx=[6,\n 7]\n# 8\n"),
     ("lead", "\n\n# c\n\nx=1\n\n\n# d\n\n"),
     ("cont", "x = 1 \\\n\ny = 2\n# c \\\n\nz = 3"),
@@ -97,14 +100,31 @@ def gen_cases(ctx, n, ncorpus):
     for tag, src in WITNESSES:
         cases.append({"kind": "witness", "tag": tag, "src": src, "sp": [1, 1]})
         cases.append({"kind": "witness", "tag": tag + "@", "src": src, "sp": [3, 5]})
+    for tag, src, margin in [("ind1", "    x = 1; y = 2\n    z = 3\n", 4), ("ind2", "    @dec\n    def f(): pass\n    z = 's'\n", 4),
+                             ("ind3", "  if a:\n      b = \"é\"; c = 1\n  # c\n\n  d = 1", 2),
+                             ("ind4", "\tx = \"é\"; y = \"\"\"s\n\t# t\"\"\"\n\t\"doc\"\n", 1)]:
+        cases.append({"kind": "witness", "tag": tag, "src": src, "sp": [1, 1], "indent": margin})
+        cases.append({"kind": "witness", "tag": tag + "@", "src": src, "sp": [5, 1], "indent": margin})
     i = 0
-    while len(cases) < n + 2 * len(WITNESSES):
+    nfixed = len(cases)
+    while len(cases) < n + nfixed:
         r = cm.rng(ctx.seed, "c10", i)
         i += 1
         src = G.gen_compilable(r)
         k = r.random()
         sp = [1, 1] if k < .7 else [r.randint(1, 40), r.choice([1, 1, 2, 5, 9])]
-        cases.append({"kind": "gen", "i": i, "src": src, "sp": sp})
+        case = {"kind": "gen", "i": i, "src": src, "sp": sp}
+        k2 = r.random()
+        if k2 < .06 and "\r" not in src:
+            crlf = src.replace("\n", "\r\n")                      # CRLF line ends (FileText splits on "\n" only)
+            if G.compiles(crlf):
+                case["src"] = crlf
+        elif k2 < .16:
+            prefix = r.choice(["    ", "  ", "\t", "        "])    # an indented block: PythonBlock parses the dedented text
+            ind = G.indent_by(src, prefix)
+            if G.compiles(G.dedent_by(ind, len(prefix))) and ind.strip():
+                case.update(src=ind, indent=len(prefix), sp=[sp[0], 1])
+        cases.append(case)
     # sequences of operations on ONE FileText / PythonBlock object (cached attributes, re-basing, slicing)
     nseq = max(60, n // 8)
     for j in range(nseq):
@@ -369,6 +389,15 @@ def string_token_starts(src, sp):
     return out
 
 
+def dump_modulo_blanks(node):
+    import copy
+    node = copy.deepcopy(node)
+    for x in ast.walk(node):
+        if isinstance(x, ast.Constant) and isinstance(x.value, (str, bytes)):
+            x.value = x.value.translate({32: None, 9: None, 12: None}) if isinstance(x.value, str) else x.value.replace(b" ", b"").replace(b"\t", b"").replace(b"\x0c", b"")
+    return ast.dump(node)
+
+
 def oracle(c, src, tree, im):
     """Return list of (clause, detail) violations of the property on the implementation's output."""
     bad = []
@@ -383,8 +412,11 @@ def oracle(c, src, tree, im):
     else:
         for p, n in zip(code, tree.body):
             try:
-                t2 = ast.parse(p["text"])
-                if len(t2.body) != 1 or ast.dump(t2.body[0]) != ast.dump(n):
+                t2 = ast.parse(textwrap.dedent(p["text"]) if c.get("indent") else p["text"])
+                # in an indented block the VALUE of a multi-line string depends on how much margin dedent
+                # removes (the whole block's vs the lone piece's): compare modulo blanks inside str constants
+                dump = dump_modulo_blanks if c.get("indent") else ast.dump
+                if len(t2.body) != 1 or dump(t2.body[0]) != dump(n):
                     bad.append(("syntax_aligned", "piece %r does not re-parse to the statement at line %d" % (p["text"][:60], n.lineno)))
                     break
             except (SyntaxError, ValueError) as e:
@@ -409,13 +441,16 @@ def oracle(c, src, tree, im):
         # format specs of f-strings are not walked by pyflyby (FormattedValue yields its value only): allow a sub-multiset
         # (pyflyby parses textwrap.dedent(source), which blanks whitespace-only lines even inside
         #  multi-line strings: values are compared modulo that)
-        blank = lambda v: v.replace(" ", "").replace("\t", "")
+        blank = lambda v: v.replace(" ", "").replace("\t", "").replace("\x0c", "")
         want = sorted(blank(v) for v in want)
         have = sorted(blank(v) for v, _ in im["lits"])
         it = iter(want)
         if not all(any(h == w for w in it) for h in have):
             bad.append(("string_literal_positions", "reported literals are not literals of the module"))
-        starts = string_token_starts(src, tuple(c["sp"]))
+        margin = c.get("indent", 0)
+        starts = string_token_starts(G.dedent_by(src, margin) if margin else src, tuple(c["sp"]))
+        if starts is not None and margin:
+            starts = {(l, col + margin) for l, col in starts}
         if starts is not None:
             lines = src.split("\n")
             l0, c0 = c["sp"]
@@ -433,6 +468,13 @@ def oracle(c, src, tree, im):
                 bad.append(("string_literal_positions", "literal %r reported at %s, no string token starts there" % (v[:30], [l, col])))
                 break
     return bad
+
+
+def f40_safe(src):
+    try:
+        return f40_logical_line_starts_with_backslash(src)
+    except (SyntaxError, ValueError):
+        return False
 
 
 def f40_logical_line_starts_with_backslash(src):
@@ -469,12 +511,12 @@ def prepare(cases):
             prep.append(None)
             continue
         try:
-            tree, nodes = G.nodes_of(src, tuple(c["sp"]))
+            tree, nodes = G.nodes_of(src, tuple(c["sp"]), c.get("indent", 0))
         except (SyntaxError, ValueError):
             prep.append(None)
             continue
         lits_expr = None
-        if len(src) <= 1500 and "\r" not in src:
+        if len(src) <= 1500 and "\r" not in src and not c.get("indent"):
             try:
                 a = abstract_ast(src, tuple(c["sp"]))
             except (AssertionError, RecursionError):
@@ -498,7 +540,7 @@ def compare_one(ctx, c, p, im, mv):
         short = {"kind": "corpus", "path": c["path"], "sp": c["sp"]}
     # oracle on the implementation's result
     for clause, detail in oracle(c, p["src"], p["tree"], im):
-        if clause == "syntax_aligned" and f40_logical_line_starts_with_backslash(p["src"]):
+        if clause == "syntax_aligned" and f40_safe(G.dedent_by(p["src"], c["indent"]) if c.get("indent") else p["src"]):
             ctx.known_hit("F40", "a logical line beginning with a lone continuation backslash: the backslash line stays in the preceding statement's piece (%s)" % detail[:90])
             ctx.bump("F40")
         else:
